@@ -106,6 +106,22 @@ def run_form(job):
             K2 = np.asarray(form.Integrate_e(field))
         if np.abs(K2 - K1).max() > 1e-12 * sc:
             viol.append((f"integrate-twice/{key}", f"form {desc} on {elem}: a second Integrate_e with the same Field gives a different result", {"form": fm, "elem": elem}))
+        if idx % 3 == 0:
+            # the same Field on a mesh that is then modified in place: the element arrays follow the new geometry
+            m2 = mesh.copy()
+            g2 = m2.groupElem
+            field2 = Field(g2, d, MatrixType.rigi)
+            with quiet():
+                form.Integrate_e(field2)
+                c = m2.coord.copy()
+                c[:, :d] = c[:, :d] * np.array([1.25, 0.8, 1.1][:d]) + 0.05 * c[:, [1, 0, 2][:d]]
+                m2.coord = c
+                m2.Rotate(30.0, (0.1, 0.2, 0.0), (0, 0, 1))
+                K3 = np.asarray(form.Integrate_e(field2))
+            Kref3 = reference(m2.groupElem, d, fm["tensor"], fm["coef"], MatrixType.rigi)
+            sc3 = max(np.abs(Kref3).max(), 1e-12)
+            if np.abs(K3 - Kref3).max() > 1e-10 * sc3:
+                viol.append((f"integrate-moved/{key}", f"form {desc} on {elem}: Integrate_e with the same Field after the mesh was stretched and rotated in place differs from the sum over the coefficient tensor on the new geometry (max relative {np.abs(K3 - Kref3).max() / sc3:.3g})", {"form": fm, "elem": elem}))
         with quiet():
             A = form.Assemble(field).toarray()
         rows = g.Get_assembly_e(d)
@@ -220,6 +236,17 @@ def weakform_simulations(ctx):
             u_wf = s2.Solve().copy()
         if np.abs(u_wf - u_ref).max() > 1e-9 * np.abs(u_ref).max():
             ctx.violation(f"simulation/elastic/{elem}", f"WeakForms elasticity on {elem} differs from Simulations.Elastic (max rel {np.abs(u_wf - u_ref).max() / np.abs(u_ref).max():.3g})", {"elem": elem})
+        # the shared mesh is moved in place; every simulation observes it and must follow
+        with quiet():
+            c = mesh.coord.copy()
+            c[:, :2] = c[:, :2] * np.array([1.25, 0.8]) + 0.05 * c[:, [1, 0]]
+            mesh.coord = c
+            mesh.Rotate(30.0, (0.1, 0.2, 0.0), (0, 0, 1))
+            t_ref, t_wf, u_ref, u_wf = th.Solve().copy(), s.Solve().copy(), el.Solve().copy(), s2.Solve().copy()
+        if np.abs(t_wf - t_ref).max() > 1e-9 * np.abs(t_ref).max():
+            ctx.violation(f"simulation-moved/thermal/{elem}", f"WeakForms heat conduction on {elem} differs from Simulations.Thermal after the mesh was moved in place (max {np.abs(t_wf - t_ref).max():.3g})", {"elem": elem})
+        if np.abs(u_wf - u_ref).max() > 1e-9 * np.abs(u_ref).max():
+            ctx.violation(f"simulation-moved/elastic/{elem}", f"WeakForms elasticity on {elem} differs from Simulations.Elastic after the mesh was moved in place (max rel {np.abs(u_wf - u_ref).max() / np.abs(u_ref).max():.3g})", {"elem": elem})
         ctx.count(2, distinct_key=("sim", elem))
 
 
